@@ -938,3 +938,36 @@ def specialise(fn_node, subst: Dict[str, object]):
     fn.body = fold_block(fn.body)
     ast.fix_missing_locations(fn)
     return fn
+
+
+def format_call_to_fstring(call):
+    """`'a{}b{}'.format(x, y)` / `'{0}-{1}'.format(..)` / `'{s}-{e}'.format(s=.., e=..)` as the equivalent JoinedStr (None when the call
+    is not a str.format on a constant template with plain fields)."""
+    import string
+    if not (isinstance(call, ast.Call) and isinstance(call.func, ast.Attribute) and call.func.attr == 'format'
+            and isinstance(call.func.value, ast.Constant) and isinstance(call.func.value.value, str)):
+        return None
+    if any(isinstance(a, ast.Starred) for a in call.args) or any(k.arg is None for k in call.keywords):
+        return None
+    kw = {k.arg: k.value for k in call.keywords}
+    vals, auto = [], 0
+    try:
+        for lit, field, spec, conv in string.Formatter().parse(call.func.value.value):
+            if lit:
+                vals.append(ast.Constant(value=lit))
+            if field is None:
+                continue
+            if field == '':
+                e = call.args[auto]
+                auto += 1
+            elif field.isdigit():
+                e = call.args[int(field)]
+            elif field in kw:
+                e = kw[field]
+            else:
+                return None
+            fs = ast.JoinedStr(values=[ast.Constant(value=spec)]) if spec else None
+            vals.append(ast.FormattedValue(value=e, conversion={None: -1, 's': 115, 'r': 114, 'a': 97}[conv], format_spec=fs))
+    except (IndexError, KeyError, ValueError):
+        return None
+    return ast.fix_missing_locations(ast.copy_location(ast.JoinedStr(values=vals), call))
